@@ -156,6 +156,16 @@ theorem uniqGen_decode_encode (q : Qty) (hq : q = Params.hpx ∨ q = Params.time
   · exact fromUniqGen_toUniqGen _ (by decide) (by decide) d i hi
   · exact fromUniqGen_toUniqGen _ (by decide) (by decide) d i hi
 
+/-- **Generic uniq → range** (`uniq_gen_to_range`): the code of a cell converts to the index range of THAT cell, for
+    the three quantities — in particular the same range as the cell → range conversion of the other views
+    (`rangeOfCell`, i.e. `MocRange::from((depth, idx))`), so going through the generic uniq numbers does not change
+    the covered set.  (The implementation shifted by `2 * (MAX_DEPTH - depth)` for time and frequency too:
+    /repo "fix: uniq_gen_to_range used the HEALPix shift for every quantity".) -/
+theorem uniqGen_to_range (q : Qty) (hq : q = Params.hpx ∨ q = Params.time ∨ q = Params.freq) (w d i : Nat)
+    (hi : i < q.nCells d) : uniqGenToRange q w (toUniqGen q d i) = rangeOfCell q w (d, i) := by
+  unfold uniqGenToRange
+  rw [uniqGen_decode_encode q hq d i hi]
+
 /-! Non-vacuity -/
 example : (5 : Nat) < 12 * 4 ^ 0 ∧ (4 : Nat) ≤ 17 := by decide
 example : Params.hpx.dim = 1 ∨ Params.hpx.dim = 2 := by decide
